@@ -184,8 +184,7 @@ def _builtin(s, ctx, func, g, tc, A, caller, ln, last):
     if E('Argument::new_debug') or E('Argument::new_display'):
         mm = re.search(r'new_(?:debug|display)::<(.*)>$', func)
         ty = mm.group(1) if mm else '?'
-        for sub in reversed(ctx.tysubst):
-            if ty in sub: ty = sub[ty]; break
+        ty = subst_type(ctx, ty)
         return Agg('FmtArg', 0, ['debug' if 'new_debug' in g else 'display', A[0], ty])
     if E('fmt::Arguments::new') or E('Arguments::new_v1') or E('Arguments::new_const') or E('Arguments::from_str'):
         tmpl = A[0]; args = deref_all(A[1]) if len(A) > 1 else Agg('array', 0, [])
@@ -454,8 +453,16 @@ def _builtin(s, ctx, func, g, tc, A, caller, ln, last):
         r = yield from s.call_callable(ctx, A[1], [o.fields[0]]); return r
     if E('Result::map') and False: pass
     # ------------------------------------------------------------ memory sizes
-    if tc and tc[2] == 'estimate_memory' and re.match(r'^[A-Z]\w?$', tc[0]):
+    if tc and tc[2] == 'estimate_memory' and re.match(r'^[A-Z][0-9]?$', tc[0]):
         v = deref_all(A[0])
+        if isinstance(v, Str):
+            if v.cap is None: v.cap = ctx.fresh_int('cap', 0, 2 ** 36)
+            return 24 + v.cap
+        if not (is_z3(v) or is_conc(v)):
+            # structured value (Result / Option / tuple ...) behind a type parameter: one symbolic size per value object
+            if not hasattr(ctx, '_objsize'): ctx._objsize = {}
+            if id(v) not in ctx._objsize: ctx._objsize[id(v)] = (v, ctx.fresh_int('objsize', 0, 2 ** 40))
+            return ctx._objsize[id(v)][1]
         SIZE = z3.Function('size', z3.IntSort(), z3.IntSort())
         r = SIZE(v if is_z3(v) else z3.IntVal(v)); ctx.add(z3.And(r >= 0, r <= 2 ** 40)); return r
     if E('mem::size_of') or E('mem::size_of_val') or E('mem::align_of'):
@@ -463,7 +470,7 @@ def _builtin(s, ctx, func, g, tc, A, caller, ln, last):
             mm = re.search(r'size_of_val::<(.*)>$', func)
         else: mm = re.search(r'(?:size_of|align_of)::<(.*)>$', func)
         ty = mm.group(1) if mm else '?'
-        return s.size_of(ctx, ty)
+        return s.size_of(ctx, subst_type(ctx, ty))
     if E('Box::new') or E('Arc::new') or E('Rc::new'):
         return Agg(g.split('::')[-2], 0, [Ref(Cell(A[0], 'heap'))]) if not isinstance(A[0], (Closure, FnItem, EnvFn)) else A[0]
     if tc and tc[0] in ('Arc', 'Rc', 'Box') and tc[2] in ('deref', 'deref_mut', 'as_ref', 'borrow'):
@@ -708,6 +715,17 @@ def _builtin(s, ctx, func, g, tc, A, caller, ln, last):
     if E('thread::yield_now') or E('hint::spin_loop'):
         yield from s.sched_point(ctx, 'yield'); return unit()
     return NotImplemented
+
+
+def subst_type(ctx, ty):
+    """replace type parameters bound at enclosing monomorphic call sites (innermost binding first)"""
+    for sub in reversed(ctx.tysubst):
+        changed = False
+        for p_, conc in sub.items():
+            ty2 = re.sub(r'(?<![\w:])' + re.escape(p_) + r'(?![\w:])', conc, ty)
+            if ty2 != ty: ty = ty2; changed = True
+        if not re.search(r'(?<![\w:])([A-Z][0-9]?|Self)(?![\w:<])', ty): break
+    return ty
 
 
 def _unsup(msg): raise Unsupported(msg)
